@@ -658,6 +658,16 @@ pub async fn process_fully_buffered_changes(
 
             debug!(%actor_id, %version, "rows impacted by buffered changes insertion: {rows_impacted}");
 
+            // the version is fully known from here on: it must stop looking partially buffered to
+            // sync requests before the (asynchronous) clearing of the buffered rows got around to it
+            forget_partial_bookkeeping(&tx, actor_id, version..=version).map_err(|source| {
+                ChangeError::Rusqlite {
+                    source,
+                    actor_id: Some(actor_id),
+                    version: Some(version),
+                }
+            })?;
+
             let mut snap = bookedw.snapshot();
             snap.insert_db(&tx, [version..=version].into())
                 .map_err(|source| ChangeError::Rusqlite {
